@@ -434,11 +434,24 @@ def correspondence(res, tier, rng):
 
 
 def search(res, rng=None):
-    """Spec-level oracles on the real code (used only when a proof/tie broke)."""
+    """Spec-level oracles on the real code (used only when a proof/tie broke).  Every group of
+    oracles is guarded on its own: a group that cannot run on the tree under test (a renamed
+    helper, an exception inside the library) is noted and the others still run."""
+    import traceback
+    rng = rng or random.Random(res.seed)
+    for group in (_search_0, _search_1, _search_2, _search_3, _search_4, _search_5, _search_6, _search_7, _search_8):
+        try:
+            group(res, rng)
+        except Exception:                                   # noqa: BLE001
+            res.notes.append('search group %s raised: %s' % (group.__name__, traceback.format_exc()[-600:]))
+
+
+def _search_0(res, rng):
     import oqupy
     from oqupy import operators as op
     from . import oq
-    rng = rng or random.Random(res.seed)
+    sysm = oq.cheap_system()
+    from oqupy.dynamics import Dynamics, MeanFieldDynamics
     # (1) grid points written as literals must be reached: every API
     for s_l in START_LITS:
         for d_l in DT_LITS:
@@ -475,6 +488,13 @@ def search(res, rng=None):
             res.fail("step-count:PtTempo start=%s dt=%s end=%r" % (s_l, d_l, e),
                      {"api": "PtTempo", "start_time": s, "dt": d, "end_time": e,
                       "expected_steps": m, "got_steps": got})
+
+def _search_1(res, rng):
+    import oqupy
+    from oqupy import operators as op
+    from . import oq
+    sysm = oq.cheap_system()
+    from oqupy.dynamics import Dynamics, MeanFieldDynamics
     # (1b) an end time clearly below a grid point (not a rounding artefact) must NOT reach it
     for (s_l, d_l, m, frac) in [("0.0", "0.01", 400, 2e-3), ("1.5", "0.05", 600, 1e-3),
                                 ("0.0", "0.1", 1000, 1e-3), ("-0.3", "0.2", 37, 1e-4),
@@ -491,6 +511,13 @@ def search(res, rng=None):
                           "expected_steps": m - 1, "got_steps": got,
                           "how": "end_time is %g steps below grid point %d: only %d whole steps fit"
                                  % (frac, m, m - 1)})
+
+def _search_2(res, rng):
+    import oqupy
+    from oqupy import operators as op
+    from . import oq
+    sysm = oq.cheap_system()
+    from oqupy.dynamics import Dynamics, MeanFieldDynamics
     # (1c) Dynamics / MeanFieldDynamics: times, fields and states stay sorted and aligned for
     #      adds in any order
     from oqupy.dynamics import Dynamics, MeanFieldDynamics
@@ -510,6 +537,13 @@ def search(res, rng=None):
                       "fields": [float(f.real) for f in mfd.fields],
                       "system0_states": [float(st[0, 0].real) for st in mfd.system_dynamics[0].states],
                       "dynamics_states": [float(st[0, 0].real) for st in dyn.states]})
+
+def _search_3(res, rng):
+    import oqupy
+    from oqupy import operators as op
+    from . import oq
+    sysm = oq.cheap_system()
+    from oqupy.dynamics import Dynamics, MeanFieldDynamics
     # (2) labels: every state is labelled start + k dt; final-only label is start + n dt
     sysm = oq.cheap_system()
     for (s, d, n) in [(0.0, 0.1, 3), (0.5, 0.2, 5), (-0.3, 0.05, 2), (1.7, 0.3, 1), (0.0, 0.1, 1)]:
@@ -547,6 +581,13 @@ def search(res, rng=None):
                          {"api": "compute_gradient_and_dynamics", "start_time": s, "dt": d,
                           "num_steps": n, "record_all": rec, "expected_times": want,
                           "got_times": got})
+
+def _search_4(res, rng):
+    import oqupy
+    from oqupy import operators as op
+    from . import oq
+    sysm = oq.cheap_system()
+    from oqupy.dynamics import Dynamics, MeanFieldDynamics
     # (2b) num_steps given explicitly (zero included) is the number of steps taken; not given
     #      means the shortest finite process tensor; too long is refused
     for idx, (api, ns, plen, s, d, rec) in enumerate(num_steps_cases(rng, 12)):
@@ -571,6 +612,13 @@ def search(res, rng=None):
                       "record_all": rec, "expected_times": want, "got": got_res, "got_times": got,
                       "how": "%s(num_steps=%r, start_time=%r, dt=%r, record_all=%r) next to "
                              "process tensors of length %r" % (api, ns, s, d, rec, plen)})
+
+def _search_5(res, rng):
+    import oqupy
+    from oqupy import operators as op
+    from . import oq
+    sysm = oq.cheap_system()
+    from oqupy.dynamics import Dynamics, MeanFieldDynamics
     # (2c) PtTebd: any history of compute(end_step) calls ends at max(end steps) and records
     #      exactly the grid up to there
     for (s, d, ks, ends) in [(1.0, 0.1, 0, [3, 5]), (1.0, 0.1, 0, [5, 5]), (0.0, 0.2, 2, [4, 3, 6]),
@@ -583,6 +631,13 @@ def search(res, rng=None):
                      {"api": "PtTebd.compute", "start_time": s, "dt": d, "start_step": ks,
                       "end_steps": ends, "expected_final_step": top, "got_final_step": step,
                       "expected_times": want, "got_times": got})
+
+def _search_6(res, rng):
+    import oqupy
+    from oqupy import operators as op
+    from . import oq
+    sysm = oq.cheap_system()
+    from oqupy.dynamics import Dynamics, MeanFieldDynamics
     # (2c') PtTebd: labels and propagation use the same dt, also when the parameters object is
     #       changed between construction and the first compute
     import oqupy as _oq
@@ -607,6 +662,13 @@ def search(res, rng=None):
                  {"api": "PtTebd", "sequence": "PtTebdParameters(dt=0.1); PtTebd(...); parameters.dt "
                   "= 0.05; compute(4)", "dt_used_by_the_propagation": used, "got_times": got_t,
                   "expected_times": want_t, "sz_site0": sz})
+
+def _search_7(res, rng):
+    import oqupy
+    from oqupy import operators as op
+    from . import oq
+    sysm = oq.cheap_system()
+    from oqupy.dynamics import Dynamics, MeanFieldDynamics
     # (2d) views read between two compute calls: the states handed out afterwards are those of
     #      the whole history, aligned with the times
     for api in ("tempo", "mft", "tebd"):
@@ -645,6 +707,13 @@ def search(res, rng=None):
                      {"api": api, "sequence": "compute(3 steps); read .states; compute(6 steps); read "
                       ".times and .states", "times_handed_out": len(got_t),
                       "states_handed_out": len(got_s), "expected": len(ref.states)})
+
+def _search_8(res, rng):
+    import oqupy
+    from oqupy import operators as op
+    from . import oq
+    sysm = oq.cheap_system()
+    from oqupy.dynamics import Dynamics, MeanFieldDynamics
     # (3) real objects: times of Tempo / MFT histories are the grid, sorted, aligned
     for api in ("tempo", "mft"):
         for (s_l, d_l, ms) in [("0.0", "0.1", [3, 2, 5]), ("0.5", "0.2", [2, 4]), ("-0.3", "0.05", [6])]:
@@ -658,6 +727,7 @@ def search(res, rng=None):
                 res.fail("history:%s start=%s dt=%s targets=%s" % (api, s_l, d_l, ms),
                          {"api": api, "start_time": s, "dt": d, "target_steps": ms,
                           "expected_times": want, "got_times": got})
+
 
 
 def run(tier, seed, replay):
